@@ -13,7 +13,7 @@ import glob, json, os, re, shutil, sys
 V = "/verif"
 refout = sys.argv[1] if len(sys.argv) > 1 else "/tmp/refout"
 matrix = sys.argv[2] if len(sys.argv) > 2 else "/tmp/refmatrix"
-MAX_PER_PROPERTY = 8
+MAX_PER_PROPERTY = 4
 
 # package dirs each property is anchored in (from the committed evidence)
 anch = {}
